@@ -297,11 +297,36 @@ fn run_dealer_loss(c: &Value) -> Value {
   out
 }
 
+/// n tasks of a multi-thread runtime are parked in wait_for_connection() (what several tasks blocked in send() on a
+/// peerless socket do); then ONE peer is added. rows: [[n, returned Ok within 600 ms, still parked / timed out]]
+fn run_wait_n(c: &Value) -> Value {
+  let n = c["n"].as_u64().unwrap() as usize;
+  let w = VWorld::new(VScript::default());
+  let rt = tokio::runtime::Builder::new_multi_thread().worker_threads(3).enable_all().build().unwrap();
+  let mut hs = Vec::new();
+  for _ in 0..n {
+    let w2 = w.clone();
+    hs.push(rt.spawn(async move { tokio::time::timeout(Duration::from_millis(700), w2.wait_for_connection()).await }));
+  }
+  std::thread::sleep(Duration::from_millis(100)); // every waiter has created its future and parked
+  w.add(1);
+  let mut ok = 0u64;
+  let mut late = 0u64;
+  for h in hs {
+    match rt.block_on(h) {
+      Ok(Ok(true)) => ok += 1,
+      _ => late += 1,
+    }
+  }
+  json!({ "rows": [[n as u64, ok, late]] })
+}
+
 pub fn run_case(c: &Value) -> Value {
   let r = catch_unwind(AssertUnwindSafe(|| match c["k"].as_str().unwrap() {
     "hist" => run_hist(c),
     "wait" => run_wait(c),
     "waitmt" => run_wait_mt(c),
+    "waitn" => run_wait_n(c),
     "dealer_loss" => run_dealer_loss(c),
     other => panic!("unknown case kind {other}"),
   }));
